@@ -162,14 +162,23 @@ Definition type_match (req : list Z) (t : Z) : bool :=
 (* console messages: 1 = Found, 2 = Skipped; 8 name bytes; type *)
 Definition msg (kind : Z) (trunk : list Z) (t : Z) : list Z := kind :: trunk ++ [t].
 
+(* _read_record(reclen): read blocks while byte_count < reclen *)
+Fixpoint read_rec (bs : list block) (want got : Z) : option (list Z) :=
+  if want <=? got then Some []
+  else match bs with
+       | [] => None
+       | b :: bs' => option_map (app b) (read_rec bs' want (got + zlen b))
+       end.
+
 Inductive sres :=
 | SFound (b : block) (t : Z) (msgs : list Z) (rest : list record)
 | SEnd (t : Z) (msgs : list Z) (seen : bool)         (* EndOfTape: Device Timeout, tape rewound *)
 | SIOErr (t : Z) (msgs : list Z) (seen : bool) (rest : list record).   (* unreadable (empty) record *)
 
 (* CASDevice._search over CassetteStream.open_read: records that do not start with the magic byte are
-   passed over; a record that does is taken as a header.  cur = CassetteStream.filetype (kept when the
-   token is unknown), seen = a header was read in this search (is_open). *)
+   passed over; a record that does is taken as a header; after a header that does not match, the data
+   record of a B/P/M file is read (skip_data), text files are left to the scan.  cur = CassetteStream.filetype
+   (kept when the token is unknown), seen = a header was read in this search (is_open). *)
 Fixpoint search (nreq treq : list Z) (cur : Z) (msgs : list Z) (seen : bool) (rest : list record) : sres :=
   match rest with
   | [] => SEnd cur msgs seen
@@ -181,10 +190,24 @@ Fixpoint search (nreq treq : list Z) (cur : Z) (msgs : list Z) (seen : bool) (re
               end
       | b :: _ =>
           if hd 0 b =? cas_magic then
-            let '(trunk, token, _, _, _) := parse_header b in
+            let '(trunk, token, len, _, _) := parse_header b in
             let t := match zassoc token cas_token_to_type with Some t => t | None => cur end in
             if name_match nreq trunk && type_match treq t
             then SFound b t (msgs ++ msg 1 trunk t) rest'
+            else if cas_search_skips_binary && is_binary t then
+              (* skip_data: read the data record (len bytes) of the skipped B/P/M file *)
+              match rest' with
+              | [] => SEnd t (msgs ++ msg 2 trunk t) true
+              | r2 :: rest'' =>
+                  match read_rec r2 len 0 with
+                  | Some _ => search nreq treq t (msgs ++ msg 2 trunk t) true rest''
+                  | None =>      (* record too short: the read runs into the next leader, error ignored *)
+                      match rest'' with
+                      | [] => SEnd t (msgs ++ msg 2 trunk t) true
+                      | _ :: rest3 => search nreq treq t (msgs ++ msg 2 trunk t) true rest3
+                      end
+                  end
+              end
             else search nreq treq t (msgs ++ msg 2 trunk t) true rest'
           else search nreq treq cur msgs seen rest'
       end
@@ -210,14 +233,6 @@ Fixpoint read_text (rest : list record) : dres :=
                end
       end
   end.
-
-(* _read_record(reclen): read blocks while byte_count < reclen *)
-Fixpoint read_rec (bs : list block) (want got : Z) : option (list Z) :=
-  if want <=? got then Some []
-  else match bs with
-       | [] => None
-       | b :: bs' => option_map (app b) (read_rec bs' want (got + zlen b))
-       end.
 
 (* binary files: one multi-block record of the length given in the header *)
 Definition read_binary (len : Z) (rest : list record) : dres :=
